@@ -38,7 +38,8 @@ def rnd_desc(rng: random.Random, i: int) -> dict[str, Any]:
     if rng.random() < 0.5:
         handlers.append({'kind': 'update', 'id': 'u1', 'script': rng.choice([[], [['temp', 1]]])})
     for j in range(rng.choice([0, 1, 1, 2])):
-        h: dict[str, Any] = {'kind': 'delete', 'id': f'd{j + 1}', 'script': rng.choice([[], [['temp', 1], ['ok']], [['arb'], ['temp', 2]], [['perm']], [['slow', 1.5, ['ok']]]]), 'opts': {}}
+        h: dict[str, Any] = {'kind': 'delete', 'id': f'd{j + 1}', 'script': rng.choice([[], [['temp', 1], ['ok']], [['arb'], ['temp', 2]], [['perm']], [['slow', 1.5, ['ok']]],
+                                                                                   [['ok', {'r': 1}], ['ok', {'r': 1}], ['ok', {'r': 1}]]]), 'opts': {}}
         if rng.random() < 0.3:
             h['opts']['optional'] = True
         if rng.random() < 0.35:
@@ -157,6 +158,12 @@ def directed() -> list[dict[str, Any]]:
             {'kind': 'create', 'id': 'c1'}, {'kind': 'delete', 'id': 'd1', 'script': [['temp', 1], ['ok']]}],
             'timeline': [[0, 'start', 'op1'], [1, 'create', 'a', {'spec': {'x': 0}}], [5, 'delete', 'a'], [20, 'fin_del', 'a', 'slip/fin']],
             'faults': [{'client': None, 'match': {'kind': 'patch', 'ctype': 'application/merge-patch+json'}, 'nth': nth, 'actions': [['slip', {'op': ['fin_add', 'a', 'slip/fin', 0]}]]}]})
+    # a deletion handler with a (repeatable) result next to a daemon that needs several re-checks to exit: the deletion is released in the end
+    for storage in ('default', 'status'):
+        out.append({'name': f'result-while-daemon-exits-{storage}', 'settings': S, 'storage': storage, 'quiet': 30.0, 'horizon': 500.0, 'handlers': [
+            {'kind': 'create', 'id': 'c1'}, {'kind': 'delete', 'id': 'd1', 'script': [['ok', {'r': 1}], ['ok', {'r': 1}], ['ok', {'r': 1}]]},
+            {'kind': 'daemon', 'id': 'dm1', 'persona': {'type': 'linger', 'linger': 5.0}, 'opts': {}}],
+            'timeline': [[0, 'start', 'op1'], [1, 'create', 'a', {'spec': {'x': 0}}], [5, 'delete', 'a']]})
     # a daemon that exits on its own is no reason to keep the finalizer on a live object
     out.append({'name': 'selfexit-live', 'settings': S, 'quiet': 30.0, 'horizon': 500.0, 'handlers': [
         {'kind': 'create', 'id': 'c1'}, {'kind': 'daemon', 'id': 'dm1', 'persona': {'type': 'selfexit', 'after': 3.0}}],
